@@ -17,7 +17,8 @@ package main
 //
 // Token stream:
 //   0x00            end of data (followed, only when the chunk refers to
-//                   shared resources, by the two bytes [sec+1, ter+1])
+//                   shared resources, by the four bytes [sec+1, ter+1] as
+//                   two little-endian uint16)
 //   0x01 n          "rle" only: a run of n (1..255) zero bytes
 //   0xFF b          the byte b (escape)
 //   t in 0x02..0xFE the byte t-2      ("stored": zero is 0x02)
@@ -119,7 +120,7 @@ func (w *modelWriter) Compress(p []byte, q []byte, resourcesData [][]byte) (
 		sec = (w.nCompr % r) - 1
 		ter = ((w.nCompr*7 + 3) % r) - 1
 		if sec >= 0 || ter >= 0 {
-			w.buf = append(w.buf, byte(sec+1), byte(ter+1))
+			w.buf = append(w.buf, byte(sec+1), byte((sec+1)>>8), byte(ter+1), byte((ter+1)>>8))
 		}
 	}
 	return w.codec(), w.buf, sec, ter, nil
@@ -262,10 +263,11 @@ func (r *modelReader) MakeDecompressor(racFile io.ReadSeeker, chunk rac.Chunk) (
 	}
 	wantSec, wantTer := 0, 0
 	if !chunk.CSecondary.Empty() || !chunk.CTertiary.Empty() {
-		if consumed+2 > len(prim) {
+		if consumed+4 > len(prim) {
 			return nil, errors.New("modelcodec: chunk refers to resources but has no trailer")
 		}
-		wantSec, wantTer = int(prim[consumed]), int(prim[consumed+1])
+		wantSec = int(prim[consumed]) | int(prim[consumed+1])<<8
+		wantTer = int(prim[consumed+2]) | int(prim[consumed+3])<<8
 	}
 	for _, x := range []struct {
 		rg   rac.Range
